@@ -14,6 +14,11 @@ def monitor(meta, out):
     lines = out or []
     if not lines or not lines[-1].startswith(("exit", "end")):
         return "main did not finish: %s" % lines[-2:]
+    asroot = [l for l in lines if l.startswith("asroot ")]
+    if asroot:
+        t = asroot[0].split()
+        return ("'%s %s' was attempted while user id %s / group id %s: nothing may be created or changed on disk before the privileges are dropped"
+                % (t[1], vlib.unhexs(t[2]) if t[2] != "-" else "", t[3], t[4]))
     loads = [i for i, l in enumerate(lines) if l.startswith("load ")]
     firstwork = next((i for i, l in enumerate(lines) if l.split()[0] in WORK), None)
     if loads:
@@ -59,6 +64,14 @@ def main(rep):
     for kw in ({"fan": 0}, {"minfo": 0}, {"mount_ok": 0, "mounted": ()}, {"markfail": 0}, {"markfail": 1}, {"load": 0}):
         cases.append(("p%d" % n, mc.main_case(slots=[mc.slot(exe=1)], **kw), (("ok", 1000, 100), (0, 0, 3, "ok", "ok", "ok"))))
         n += 1
+    # watch roots that do not exist (or are spelled through a missing directory): whatever main() does about them,
+    # it does not create anything as root
+    nmissing = 0
+    for args in (["-w", "/nx"], ["-e", "/nx/bin"], ["-w", "/nx/deep/er", "-e", "/"], ["-w", "/", "-w", "/nx"], ["-d", "/nx", "-w", "/nx"]):
+        for cr in ((0, 0, 3), (0, 100, 2), (1000, 0, 1)):
+            cases.append(("p%d" % n, mc.main_case(args=args, slots=[mc.slot(exe=1)], cred=cr + ("ok", "ok", "ok")), (("ok", 1000, 100), cr + ("ok", "ok", "ok"))))
+            n += 1
+            nmissing += 1
     if exe_impl:
         impl, model, problems = vlib.correspond(exe_impl, exe_model, "main", [(c, s) for c, s, _ in cases], sandbox=True)
         validated = 0
@@ -83,10 +96,11 @@ def main(rep):
     rep.cov["evaluations"] = len(cases)
     rep.cov["distinct_nontrivial"] = len(cases)
     rep.cov["exhaustive"] = True
-    rep.cov["input_distribution"] = {"stat x switches x initial credentials": len(cases) - 6, "failing start-up calls": 6}
+    rep.cov["input_distribution"] = {"stat x switches x initial credentials": len(cases) - 6 - nmissing, "failing start-up calls": 6, "missing watch roots": nmissing}
     rep.cov["rule"] = ("exhaustive: stat outcome {fails, owner 0:0, 0:5, 5:0, 1000:100} x {ok, fail, succeeds-without-effect}^3 for setgroups/setgid/setuid x "
                        "initial credentials {0:0 with groups, 0:0 without, 1000:100, 0:100, 1000:0} on the real main() with every call scripted, two event slots behind; "
-                       "plus failures of fanotify_init, the mount table, mount, fanotify_mark, load_handler; the monitor checks the order and the credentials at load")
+                       "plus failures of fanotify_init, the mount table, mount, fanotify_mark, load_handler, and watch roots that do not exist; the monitor checks the order, the credentials at load, and that no interposed call that "
+                       "modifies the file system (mkdir, open with O_CREAT, link, rename, unlink, ...) is attempted while the user id or the group id is zero")
     rep.cov["samples"] = [cases[7][1].split("\n")]
     vlib.conclude_proofs(rep, found)
 
